@@ -261,6 +261,7 @@ func main() {
 			{Name: "load@4", Tiers: "thorough", Depth: 4, NewModel: load},
 			{Name: "override/counts@2", Tiers: "thorough", Depth: 2, NewModel: overrideScope(aba, few, []int{1, 2}, false)},
 			{Name: "multi@3", Tiers: "thorough", Depth: 3, NewModel: func() hist.Model { return newModel(multiOps(pool, true)) }},
+			{Name: "multi/3pool@4", Tiers: "thorough", Depth: 4, NewModel: func() hist.Model { return newModel(multiOps([]rspec{rA, rAB, rD}, false)) }},
 			{Name: "ranges/3rules@3", Tiers: "thorough", Depth: 3, NewModel: rangesScope(aba, vll)},
 			{Name: "ranges/2rules@5", Tiers: "thorough", Depth: 5, NewModel: rangesScope(ab, vll)},
 			{Name: "after-reject@4", Tiers: "thorough", Depth: 4, NewModel: overrideScope([][2]string{{"g1", "a"}, {"g2", "a"}}, few[:2], []int{1}, true)},
